@@ -9,11 +9,12 @@ Integer rank arithmetic, half-cell and eps constants, derived grids and point-to
 import os
 
 import facts
-from facts import REPO, Program, extract, show, call_obj, call_args, walk
+from facts import REPO, Program, extract, show, call_obj, call_args, walk, CALL_KINDS
+from e1_paths import CFG
 from e2_deps import Deps, var_key
 from report import Check
 
-UNITS = ["src/Basic/Grid.cpp", "src/Basic/Rotation.cpp", "src/Db/DbGrid.cpp"]
+UNITS = ["src/Basic/Grid.cpp", "src/Basic/Rotation.cpp", "src/Db/DbGrid.cpp", "src/Core/db.cpp"]
 # roles confirmed by reading the documentation of each routine
 FORWARD = ["Grid::getCoordinate", "Grid::getCoordinatesByIndice", "Grid::getCoordinatesByRank", "Grid::indiceToCoordinate",
            "Grid::indicesToCoordinateInPlace"]
@@ -26,6 +27,169 @@ def rot_out_params(call):
     if cal.endswith("::rotateDirect") or cal.endswith("::rotateInverse"):
         return [1]
     return None
+
+def external_siblings(prog, chk):
+    """C16x - conversion routines written OUTSIDE the Grid class (src/Core/db.cpp: db_grid_define_coordinates, point_to_grid,
+    point_to_bench, point_inside_grid) obey the same dependence shape as Grid's own: what is handed to rotateDirect depends on
+    the mesh (getDX) and not on the origin (getX0) - the origin is added afterwards; what is handed to rotateInverse depends on
+    the origin and not on the mesh."""
+    n = 0
+    for f in sorted(prog.funcs, key=lambda x: (x.file, x.line)):
+        if f.cfg is None or f.cls in ("Grid", "Rotation") or not f.file.endswith("src/Core/db.cpp"):
+            continue
+        rots = [c for c in f.calls() if (c.get("callee") or "").endswith(("Rotation::rotateDirect", "Rotation::rotateInverse"))]
+        if not rots:
+            continue
+        dp = Deps(f, rot_out_params, nonempty_loops=True).solve()
+        for c in rots:
+            short = c["callee"].split("::")[-1]
+            st = dp.state_before(c)
+            din = dp.deps(call_args(c)[0], st)
+            mesh = any(a in din for a in ("C:getDX", "C:getDXs"))
+            orig = any(a in din for a in ("C:getX0", "C:getX0s"))
+            fwd = short == "rotateDirect"
+            ok = (mesh and not orig) if fwd else (orig and not mesh)
+            n += 1
+            chk.analysed(f)
+            chk.ob("C16x", "%s: the vector handed to %s depends on %s and not on %s" % (
+                       f.name, short, "the mesh size" if fwd else "the origin", "the origin" if fwd else "the mesh size"), f.loc(c), ok,
+                   detail=None if ok else "the vector handed to %s depends on {%s}: %s" % (
+                       short, ", ".join(sorted(a for a in din if a.startswith("C:get"))),
+                       "the origin is added before rotating (the grid turns about the point (0,0) instead of about its own origin) / the mesh is "
+                       "not applied before rotating" if fwd else "the mesh is applied before un-rotating / the origin is not removed before un-rotating"),
+                   key="C16x|%s|%s-input" % (f.name, short))
+            if fwd:
+                ok2 = False
+                for x in f.walk():
+                    if (x["k"] == "BinOp" and x.get("op") == "+") or (x["k"] in ("Assign", "OpCall", "CompoundAssign") and x.get("op") == "+="):
+                        st2 = dp.state_before(x)
+                        l, r = dp.deps(x["c"][0], st2), dp.deps(x["c"][1], st2)
+                        if ("C:rotateDirect" in l and "C:getX0" in r and "C:rotateDirect" not in r) or \
+                                ("C:rotateDirect" in r and "C:getX0" in l and "C:rotateDirect" not in l):
+                            ok2 = True
+                n += 1
+                chk.ob("C16x", "%s: the origin is added to the rotated vector" % f.name, f.loc(), ok2,
+                       detail=None if ok2 else "no sum of the rotated vector and the origin after rotateDirect", key="C16x|%s|origin-after" % f.name)
+    chk.floor("C16x", n, 5)
+
+
+CONV_INOUT = {"indicesToCoordinateInPlace": (0, 1), "coordinateToIndicesInPlace": (0, 1), "rankToCoordinatesInPlace": (None, 1),
+              "rankToIndice": (None, 1)}
+
+
+def _root(n):
+    from e2_deps import var_key
+    return var_key(n)
+
+
+def _writes_var(x, key):
+    """statement-level node x writes (an element of) the variable `key`"""
+    from e2_deps import var_key
+    k = x["k"]
+    if k in ("Assign", "CompoundAssign") or (k == "OpCall" and (x.get("op") or "").endswith("=") and x.get("op") not in ("==", "!=", "<=", ">=")):
+        return var_key(x["c"][0]) == key
+    if k == "UnOp" and x.get("op") in ("++", "--"):
+        return var_key(x["c"][0]) == key
+    return False
+
+
+def stale_outputs(prog, chk):
+    """C16s - a coordinate (index) vector obtained from an index (coordinate) vector by a grid conversion is up to date where it
+    is used: on no path is the INPUT vector modified after the conversion and the OUTPUT then read without converting again
+    (db_grid_reduce must convert the corner indices AFTER the margins have been applied to them)."""
+    from e2_deps import var_key
+    n = 0
+    for f in sorted(prog.funcs, key=lambda x: (x.file, x.line)):
+        if f.cfg is None:
+            continue
+        sites = []
+        for c in f.calls():
+            short = (c.get("callee") or "").split("::")[-1]
+            if short not in CONV_INOUT or (c.get("cls") or "") not in ("Grid", "DbGrid"):
+                continue
+            i_in, i_out = CONV_INOUT[short]
+            a = call_args(c)
+            if i_in is None or i_in >= len(a) or i_out >= len(a) or a[i_in] is None or a[i_out] is None:
+                continue
+            kin, kout = var_key(a[i_in]), var_key(a[i_out])
+            if kin is None or kout is None or kin == kout or kin[0] != "L" or kout[0] != "L":
+                continue
+            sites.append((c, short, kin, kout))
+        if not sites:
+            continue
+        g = CFG(f)
+        for c, short, kin, kout in sites:
+            if g.pos_of(c) is None:
+                continue
+            n += 1
+            recompute = lambda y, kout=kout: (y["k"] in CALL_KINDS and any(var_key(z) == kout for z in call_args(y) if z is not None) and
+                                              (y.get("callee") or "").split("::")[-1] in CONV_INOUT) or _writes_var(y, kout) or \
+                (y["k"] == "VarDecl" and ("L", y.get("d"), y.get("n")) == kout)
+            w1 = g.search(g.after(c), is_target=lambda y, kin=kin: _writes_var(y, kin), is_barrier=recompute)
+            bad = None
+            if w1 is not None:
+                hit = w1["hit"]
+                reads_out = lambda y, kout=kout, hit=hit: y["i"] != hit["i"] and any(
+                    z["k"] == "DeclRefExpr" and ("L", z.get("d"), z.get("n")) == kout for z in walk(y))
+                w2 = g.search(g.after(hit), is_target=reads_out, is_barrier=recompute)
+                if w2 is not None:
+                    bad = (hit, w2)
+            if bad:
+                chk.analysed(f)
+            chk.ob("C16s", "%s: `%s` obtained by %s from `%s` is not read after `%s` has changed" % (f.name, kout[2], short, kin[2], kin[2]),
+                   f.loc(c), bad is None,
+                   detail=None if bad is None else "`%s` is modified at line %s after the conversion and `%s` is read afterwards (line %s) without "
+                   "converting again: the coordinates belong to the old indices" % (kin[2], f.loc(bad[0]).split(":")[-1], kout[2], f.loc(bad[1]["hit"]).split(":")[-1]),
+                   key="C16s|%s|%s<-%s" % (f.name, kout[2], kin[2]), nontrivial=bad is not None,
+                   path=None if bad is None else g.describe(bad[1]))
+    chk.floor("C16s", n, 5)
+
+
+def option_forwarding(prog, chk):
+    """C16o - an option of a point-to-cell routine (`centered`, `eps`, ...) is honoured on every branch: when a function hands
+    one of its own parameters to a Grid / DbGrid conversion routine in one call, every other call of the same routine in that
+    function hands it too (a call that falls back on the default argument ignores what the caller asked)."""
+    n = 0
+    for f in sorted(prog.funcs, key=lambda x: (x.file, x.line)):
+        if f.body is None:
+            continue
+        pd = {p["d"]: p["n"] for p in f.params}
+        by = {}
+        for c in f.calls():
+            if c.get("callee") and (c.get("cls") or "") in ("Grid", "DbGrid"):
+                by.setdefault((c["callee"], c.get("sig")), []).append(c)
+        for (cal, sig), cs in sorted(by.items(), key=lambda kv: kv[0][0]):
+            if len(cs) < 2:
+                continue
+            width = max(len(call_args(c)) for c in cs)
+            for k in range(width):
+                def arg(c):
+                    a = call_args(c)
+                    x = a[k] if k < len(a) else None
+                    while x is not None and x["k"] == "Cast":
+                        x = x["c"][0]
+                    return x
+                fw = [c for c in cs if arg(c) is not None and arg(c)["k"] == "DeclRefExpr" and arg(c).get("d") in pd]
+                if not fw:
+                    continue
+                pname = pd[arg(fw[0])["d"]]
+                for c in cs:
+                    if c in fw:
+                        continue
+                    x = arg(c)
+                    dropped = x is None or x["k"] == "DefaultArg"
+                    n += 1
+                    if dropped:
+                        chk.analysed(f)
+                    chk.ob("C16o", "%s: option `%s` handed to %s on every call" % (f.name, pname, cal.split("::")[-1]), f.loc(c), not dropped,
+                           detail=None if not dropped else "another call of %s in the same function receives the parameter `%s`; this one falls back on "
+                           "the default value: the option is ignored on this branch" % (cal.split("::")[-1], pname),
+                           key="C16o|%s|%s.%s" % (f.name, cal.split("::")[-1], pname), nontrivial=dropped)
+                for c in fw:
+                    n += 1
+                    chk.ob("C16o", "%s: option `%s` handed to %s on every call" % (f.name, pname, cal.split("::")[-1]), f.loc(c), True,
+                           key="C16o|%s|%s.%s" % (f.name, cal.split("::")[-1], pname))
+    chk.floor("C16o", n, 4)
 
 
 def main(tier):
@@ -269,16 +433,34 @@ def main(tier):
             if x["k"] in ("Assign", "OpCall") and x.get("op") == "=" and x["c"][0] is not None and x["c"][0]["k"] == "MemberExpr" and \
                     x["c"][0]["n"] in ("_rotMat", "_rotInv"):
                 touched.setdefault(x["c"][0]["n"], x)
+            # the angles are the third representation of the same rotation: assigned as a whole, filled, or computed in place
+            # from the matrix (`resize` keeps the old elements: it is not a rewrite)
+            if x["k"] in ("Assign", "OpCall") and x.get("op") == "=" and x["c"][0] is not None and x["c"][0]["k"] == "MemberExpr" and x["c"][0]["n"] == "_angles":
+                touched.setdefault("_angles", x)
+            if x["k"] in ("Call", "MCall") and (x.get("callee") or "").split("::")[-1] in ("rotationGetAnglesInPlace", "fill", "rotationGetAngles"):
+                if any(y["k"] == "MemberExpr" and y["n"] == "_angles" for a_ in call_args(x) if a_ is not None for y in walk(a_)) or \
+                        (call_obj(x) is not None and call_obj(x)["k"] == "MemberExpr" and call_obj(x)["n"] == "_angles"):
+                    touched.setdefault("_angles", x)
             if x["k"] == "MCall" and (x.get("callee") or "").endswith(("::_directToInverse",)):
                 touched.setdefault("_rotInv", x)
             if x["k"] == "MCall" and (x.get("callee") or "").endswith(("::_inverseToDirect",)):
                 touched.setdefault("_rotMat", x)
-        if touched and f.short not in ("_directToInverse", "_inverseToDirect"):
+        mats = {k_: v for k_, v in touched.items() if k_ != "_angles"}
+        if mats and f.short not in ("_directToInverse", "_inverseToDirect"):
             n += 1
-            ok = len(touched) == 2
+            ok = len(mats) == 2
             chk.analysed(f)
             chk.ob("C16", "%s: changes the direct and the inverse matrix together" % f.sig(), f.loc(), ok,
-                   detail=None if ok else "only %s is modified: rotateDirect and rotateInverse stop being inverse of each other" % list(touched)[0],
+                   detail=None if ok else "only %s is modified: rotateDirect and rotateInverse stop being inverse of each other" % list(mats)[0],
                    key="C16|%s/%d|both-matrices" % (f.name, len(f.params)))
+            n += 1
+            ok = "_angles" in touched
+            chk.ob("C16", "%s: rewrites the angles together with the matrices" % f.sig(), f.loc(), ok,
+                   detail=None if ok else "the matrices are replaced and `_angles` is not assigned / filled / recomputed (a `resize` keeps the old "
+                   "elements): getAngles() reports the previous rotation, and every grid derived from the angles of this one is rotated differently "
+                   "from its parent", key="C16|%s/%d|angles-with-matrices" % (f.name, len(f.params)))
     chk.floor("C16", n, 25)
+    external_siblings(prog, chk)
+    stale_outputs(prog, chk)
+    option_forwarding(prog, chk)
     return chk.finish()
